@@ -1,0 +1,457 @@
+//! C14 (second half): CID-echo authentication of transport parameters and the client-side CID
+//! bookkeeping that feeds it.
+//!
+//! Family 1 -- the decision. The REAL `Connection::handle_peer_params` on a real pre-handshake client
+//! or server `Connection` whose three private CID fields were overwritten from the request:
+//!   check <c|s> <orig_rem> <initial_dst> <retry_src|none> <tp.initial_src|none> <tp.original_dst|none> <tp.retry_src|none>
+//!        -> ok | err <CODE>
+//!   (`TransportParameters::default()` except for the three CID fields.)
+//!
+//! Family 2 -- the bookkeeping, driven through REAL packets. A real client `Connection`
+//! (`Endpoint::connect`) receives server packets built here with the crate's own `Header::encode` /
+//! `PartialEncode::finish` and the real Initial keys (`Session::initial_keys(.., Side::Server)`):
+//!   connect <initial_dst>            Endpoint::connect with that first DCID, then poll_transmit (the first
+//!                                    Initial is sent)                                   -> <state>
+//!   retry <scid> <good|bad> <toklen> a Retry packet: SCID, token of toklen bytes, integrity tag computed over
+//!                                    the DCID the client currently uses (RFC 9001 5.8; `bad` = one tag bit
+//!                                    flipped); checked by the real `is_valid_retry`      -> <state>
+//!   initial <scid> <good|bad>        a server Initial (one PING + padding), protected with the Initial keys of
+//!                                    the DCID of the client's latest first flight (`bad`: keys of another CID,
+//!                                    i.e. a packet that does not authenticate)           -> <state>
+//!   hs <scid>                        a Handshake packet (one PING); the Handshake-space keys are planted by
+//!                                    the executor (no TLS progress is made), the SCID test is the real one
+//!                                                                                        -> <state>
+//!   echo <tp.initial_src|none> <tp.original_dst|none> <tp.retry_src|none>
+//!                                    `handle_peer_params` on the driven connection with its REAL bookkeeping
+//!                                    state                                               -> ok | err <CODE>
+//! <state> = st dst=<initial_dst_cid> orig=<orig_rem_cid> hs=<rem_handshake_cid> retry=<retry_src_cid|none>
+//!           active=<rem_cids.active()> set=<rem_cid_set 0|1|-> authed=<total_authed_packets>
+//!           pings=<stats.frame_rx.ping>   (= number of server packets whose payload was processed, i.e.
+//!           that were not discarded by the SCID tests)
+//! CIDs are lower-case hex, `-` = the empty CID, at most 20 bytes; `none` = absent.
+use std::sync::Arc;
+
+#[cfg(all(feature = "aws-lc-rs", not(feature = "ring")))]
+use aws_lc_rs::aead;
+use bytes::{BufMut, Bytes, BytesMut};
+#[cfg(feature = "ring")]
+use ring::aead;
+use rustls::client::danger::{HandshakeSignatureValid, ServerCertVerified, ServerCertVerifier};
+use rustls::pki_types::{CertificateDer, ServerName, UnixTime};
+
+use super::{hex, num, unhex, Comp, BAD};
+use crate::cid_generator::RandomConnectionIdGenerator;
+use crate::connection::{Connection, SideArgs, State};
+use crate::crypto::rustls::{configured_provider, QuicClientConfig};
+use crate::crypto::{
+    self, AeadKey, CryptoError, HandshakeTokenKey, Keys, Session, UnsupportedVersion,
+};
+use crate::packet::{
+    FixedLengthConnectionIdParser, Header, InitialHeader, LongType, PacketNumber, PartialDecode,
+    SpaceId,
+};
+use crate::shared::{
+    ConnectionEvent, ConnectionEventInner, ConnectionId, DatagramConnectionEvent,
+};
+use crate::transport_parameters::TransportParameters;
+use crate::{
+    ClientConfig, Endpoint, EndpointConfig, Instant, ServerConfig, Side, TokenMemoryCache,
+    TransportConfig, MAX_CID_SIZE,
+};
+
+/// RFC 9001 section 5.8 (QUIC v1): key and nonce of the Retry integrity tag (public constants)
+const RETRY_KEY_V1: [u8; 16] = [
+    0xbe, 0x0c, 0x69, 0x0b, 0x9f, 0x66, 0x57, 0x5a, 0x1d, 0x76, 0x6b, 0x54, 0xe3, 0x68, 0xc8, 0x4e,
+];
+const RETRY_NONCE_V1: [u8; 12] = [
+    0x46, 0x15, 0x99, 0xd3, 0x5d, 0x63, 0x2b, 0xf2, 0x23, 0x98, 0x25, 0xbb,
+];
+
+#[derive(Debug)]
+struct NoVerify(Arc<rustls::crypto::CryptoProvider>);
+
+impl ServerCertVerifier for NoVerify {
+    fn verify_server_cert(
+        &self,
+        _end_entity: &CertificateDer<'_>,
+        _intermediates: &[CertificateDer<'_>],
+        _server_name: &ServerName<'_>,
+        _ocsp: &[u8],
+        _now: UnixTime,
+    ) -> Result<ServerCertVerified, rustls::Error> {
+        Ok(ServerCertVerified::assertion())
+    }
+    fn verify_tls12_signature(
+        &self,
+        message: &[u8],
+        cert: &CertificateDer<'_>,
+        dss: &rustls::DigitallySignedStruct,
+    ) -> Result<HandshakeSignatureValid, rustls::Error> {
+        rustls::crypto::verify_tls12_signature(
+            message,
+            cert,
+            dss,
+            &self.0.signature_verification_algorithms,
+        )
+    }
+    fn verify_tls13_signature(
+        &self,
+        message: &[u8],
+        cert: &CertificateDer<'_>,
+        dss: &rustls::DigitallySignedStruct,
+    ) -> Result<HandshakeSignatureValid, rustls::Error> {
+        rustls::crypto::verify_tls13_signature(
+            message,
+            cert,
+            dss,
+            &self.0.signature_verification_algorithms,
+        )
+    }
+    fn supported_verify_schemes(&self) -> Vec<rustls::SignatureScheme> {
+        self.0.signature_verification_algorithms.supported_schemes()
+    }
+}
+
+/// `handle_peer_params` never touches the server's TLS configuration or token key
+struct NoCrypto;
+impl crypto::ServerConfig for NoCrypto {
+    fn initial_keys(&self, _: u32, _: ConnectionId) -> Result<Keys, UnsupportedVersion> {
+        unreachable!()
+    }
+    fn retry_tag(&self, _: u32, _: ConnectionId, _: &[u8]) -> [u8; 16] {
+        unreachable!()
+    }
+    fn start_session(self: Arc<Self>, _: u32, _: &TransportParameters) -> Box<dyn Session> {
+        unreachable!()
+    }
+}
+struct NoKey;
+impl HandshakeTokenKey for NoKey {
+    fn aead_from_hkdf(&self, _: &[u8]) -> Box<dyn AeadKey> {
+        Box::new(NoAead)
+    }
+}
+struct NoAead;
+impl AeadKey for NoAead {
+    fn seal(&self, _: &mut Vec<u8>, _: &[u8]) -> Result<(), CryptoError> {
+        Err(CryptoError)
+    }
+    fn open<'a>(&self, _: &'a mut [u8], _: &[u8]) -> Result<&'a mut [u8], CryptoError> {
+        Err(CryptoError)
+    }
+}
+
+fn remote() -> std::net::SocketAddr {
+    "127.0.0.1:4433".parse().unwrap()
+}
+
+fn client_config(initial_dst: ConnectionId) -> ClientConfig {
+    let crypto = QuicClientConfig::new(Arc::new(NoVerify(configured_provider())));
+    let mut client = ClientConfig::new(Arc::new(crypto));
+    client
+        .transport_config(Arc::new(TransportConfig::default()))
+        .initial_dst_cid_provider(Arc::new(move || initial_dst));
+    // a fresh, empty token store per connection: no NEW_TOKEN token is ever presented
+    client.token_store(Arc::new(TokenMemoryCache::default()));
+    client
+}
+
+/// A real client connection as `Endpoint::connect` makes it
+fn client_conn(initial_dst: ConnectionId) -> Connection {
+    let mut endpoint = Endpoint::new(Arc::new(EndpointConfig::default()), None, true);
+    let (_, conn) = endpoint
+        .connect(Instant::now(), client_config(initial_dst), remote(), "localhost")
+        .unwrap();
+    conn
+}
+
+/// A real server-side `Connection` (`Connection::new` with `SideArgs::Server`). Its TLS session object
+/// is a client session: `Connection::new` only derives the Initial keys from it (for the side it is
+/// told), and `handle_peer_params` does not touch it.
+fn server_conn() -> Connection {
+    let endpoint_config = Arc::new(EndpointConfig::default());
+    let cc = client_config(ConnectionId::new(&[0u8; 8]));
+    let loc_cid = ConnectionId::new(&[1u8; 8]);
+    let rem_cid = ConnectionId::new(&[2u8; 8]);
+    let init_cid = ConnectionId::new(&[0u8; 8]);
+    let params = TransportParameters::default();
+    let tls = cc
+        .crypto
+        .clone()
+        .start_session(cc.version, "localhost", &params)
+        .unwrap();
+    let server_config = Arc::new(ServerConfig::new(Arc::new(NoCrypto), Arc::new(NoKey)));
+    Connection::new(
+        endpoint_config,
+        server_config.transport.clone(),
+        init_cid,
+        loc_cid,
+        rem_cid,
+        remote(),
+        None,
+        tls,
+        &RandomConnectionIdGenerator::new(8),
+        Instant::now(),
+        cc.version,
+        true,
+        [0u8; 32],
+        SideArgs::Server {
+            server_config,
+            pref_addr_cid: None,
+            path_validated: true,
+        },
+    )
+}
+
+fn cid(s: &str) -> Option<ConnectionId> {
+    let b = unhex(s)?;
+    (b.len() <= MAX_CID_SIZE).then(|| ConnectionId::new(&b))
+}
+
+fn opt_cid(s: &str) -> Option<Option<ConnectionId>> {
+    if s == "none" {
+        Some(None)
+    } else {
+        cid(s).map(Some)
+    }
+}
+
+fn show_opt(c: &Option<ConnectionId>) -> String {
+    match c {
+        None => "none".into(),
+        Some(c) => hex(c),
+    }
+}
+
+fn echo_params(w: &[&str]) -> Option<TransportParameters> {
+    let mut tp = TransportParameters::default();
+    tp.initial_src_cid = opt_cid(w[0])?;
+    tp.original_dst_cid = opt_cid(w[1])?;
+    tp.retry_src_cid = opt_cid(w[2])?;
+    Some(tp)
+}
+
+fn verdict(conn: &mut Connection, tp: TransportParameters) -> String {
+    match conn.handle_peer_params(tp) {
+        Ok(()) => "ok".into(),
+        Err(e) => format!("err {:?}", e.code),
+    }
+}
+
+pub(super) struct CidEchoC {
+    /// connections of family 1 (made on first use, one per side)
+    chk_client: Option<Connection>,
+    chk_server: Option<Connection>,
+    /// the driven client connection of family 2
+    conn: Option<Connection>,
+    /// next packet number of the packets built here (never reused: the duplicate filter is not the subject)
+    pn: u64,
+}
+
+impl CidEchoC {
+    pub(super) fn new() -> Self {
+        Self {
+            chk_client: None,
+            chk_server: None,
+            conn: None,
+            pn: 0,
+        }
+    }
+
+    fn state(&self) -> String {
+        let c = self.conn.as_ref().unwrap();
+        let set = match c.state {
+            State::Handshake(ref hs) => (hs.rem_cid_set as u8).to_string(),
+            _ => "-".into(),
+        };
+        format!(
+            "st dst={} orig={} hs={} retry={} active={} set={} authed={} pings={}",
+            hex(&c.initial_dst_cid),
+            hex(&c.orig_rem_cid),
+            hex(&c.rem_handshake_cid),
+            show_opt(&c.retry_src_cid),
+            hex(&c.rem_cids.active()),
+            set,
+            c.total_authed_packets,
+            c.stats.frame_rx.ping
+        )
+    }
+
+    /// Hand one datagram to the driven connection the way `Endpoint::handle` does. (Nothing is
+    /// transmitted afterwards: the bookkeeping does not depend on it, and a client that sends a Handshake
+    /// packet drops its Initial keys, which would end the Initial-space part of the case.)
+    fn deliver(&mut self, datagram: Vec<u8>) {
+        let c = self.conn.as_mut().unwrap();
+        let now = Instant::now();
+        let (first_decode, remaining) = PartialDecode::new(
+            BytesMut::from(&datagram[..]),
+            &FixedLengthConnectionIdParser::new(c.handshake_cid.len()),
+            &[c.version],
+            false,
+        )
+        .unwrap();
+        c.handle_event(ConnectionEvent(ConnectionEventInner::Datagram(
+            DatagramConnectionEvent {
+                now,
+                remote: remote(),
+                ecn: None,
+                first_decode,
+                remaining,
+            },
+        )));
+    }
+
+    /// A long-header packet with one PING frame and padding, protected with `keys.*.local`
+    fn protected(&mut self, header: Header, keys: &Keys) -> Vec<u8> {
+        let pn = self.pn;
+        self.pn += 1;
+        let mut buf = Vec::new();
+        let pe = header.encode(&mut buf);
+        buf.push(0x01); // PING
+        buf.resize(buf.len() + 24, 0); // PADDING (room for the header-protection sample)
+        buf.resize(buf.len() + keys.packet.local.tag_len(), 0);
+        pe.finish(&mut buf, &*keys.header.local, Some((pn, &*keys.packet.local)));
+        buf
+    }
+
+    fn next_number(&self) -> PacketNumber {
+        PacketNumber::U32(self.pn as u32)
+    }
+}
+
+impl Comp for CidEchoC {
+    fn exec(&mut self, w: &[&str]) -> String {
+        match w {
+            ["check", side, orig_rem, initial_dst, retry_src, tp @ ..] if tp.len() == 3 => {
+                let (Some(orig_rem), Some(initial_dst), Some(retry_src), Some(tp)) =
+                    (cid(orig_rem), cid(initial_dst), opt_cid(retry_src), echo_params(tp))
+                else {
+                    return BAD.into();
+                };
+                let conn = match *side {
+                    "c" => self
+                        .chk_client
+                        .get_or_insert_with(|| client_conn(ConnectionId::new(&[0u8; 8]))),
+                    "s" => self.chk_server.get_or_insert_with(server_conn),
+                    _ => return BAD.into(),
+                };
+                conn.orig_rem_cid = orig_rem;
+                conn.initial_dst_cid = initial_dst;
+                conn.retry_src_cid = retry_src;
+                verdict(conn, tp)
+            }
+            ["connect", dcid] => {
+                let Some(dcid) = cid(dcid) else {
+                    return BAD.into();
+                };
+                let mut conn = client_conn(dcid);
+                let mut buf = Vec::new();
+                let _ = conn.poll_transmit(Instant::now(), 1, &mut buf);
+                self.conn = Some(conn);
+                self.state()
+            }
+            ["retry", scid, tag, toklen] => {
+                let (Some(scid), Some(toklen), true) = (
+                    cid(scid),
+                    num(toklen).filter(|&n| n <= 64),
+                    *tag == "good" || *tag == "bad",
+                ) else {
+                    return BAD.into();
+                };
+                let Some(c) = self.conn.as_ref() else {
+                    return BAD.into();
+                };
+                let orig_dst = c.rem_cids.active();
+                let mut buf = Vec::new();
+                Header::Retry {
+                    src_cid: scid,
+                    dst_cid: c.handshake_cid,
+                    version: c.version,
+                }
+                .encode(&mut buf);
+                buf.put_slice(&vec![0x5a; toklen as usize]);
+                let mut pseudo = vec![orig_dst.len() as u8];
+                pseudo.extend_from_slice(&orig_dst);
+                pseudo.extend_from_slice(&buf);
+                let key = aead::LessSafeKey::new(
+                    aead::UnboundKey::new(&aead::AES_128_GCM, &RETRY_KEY_V1).unwrap(),
+                );
+                let t = key
+                    .seal_in_place_separate_tag(
+                        aead::Nonce::assume_unique_for_key(RETRY_NONCE_V1),
+                        aead::Aad::from(pseudo),
+                        &mut [],
+                    )
+                    .unwrap();
+                let mut t = t.as_ref().to_vec();
+                if *tag == "bad" {
+                    t[7] ^= 0x10;
+                }
+                buf.extend_from_slice(&t);
+                self.deliver(buf);
+                self.state()
+            }
+            ["initial", scid, keys] => {
+                let (Some(scid), true) = (cid(scid), *keys == "good" || *keys == "bad") else {
+                    return BAD.into();
+                };
+                let Some(c) = self.conn.as_ref() else {
+                    return BAD.into();
+                };
+                // what a server derives its Initial keys from: the DCID of the client's (latest) first flight
+                let key_cid = match *keys {
+                    "good" => c.retry_src_cid.unwrap_or(c.initial_dst_cid),
+                    _ => ConnectionId::new(&[0xa5; 9]),
+                };
+                let k = c.crypto.initial_keys(key_cid, Side::Server);
+                let header = Header::Initial(InitialHeader {
+                    dst_cid: c.handshake_cid,
+                    src_cid: scid,
+                    token: Bytes::new(),
+                    number: self.next_number(),
+                    version: c.version,
+                });
+                let p = self.protected(header, &k);
+                self.deliver(p);
+                self.state()
+            }
+            ["hs", scid] => {
+                let Some(scid) = cid(scid) else {
+                    return BAD.into();
+                };
+                let number = self.next_number();
+                let Some(c) = self.conn.as_mut() else {
+                    return BAD.into();
+                };
+                // Handshake keys normally come out of the TLS stack once the ServerHello was read; here a
+                // fixed key pair is planted on both ends so that the packet authenticates.
+                let plant = ConnectionId::new(&[0x3c; 8]);
+                if c.spaces[SpaceId::Handshake].crypto.is_none() {
+                    c.spaces[SpaceId::Handshake].crypto =
+                        Some(c.crypto.initial_keys(plant, Side::Client));
+                }
+                let k = c.crypto.initial_keys(plant, Side::Server);
+                let header = Header::Long {
+                    ty: LongType::Handshake,
+                    dst_cid: c.handshake_cid,
+                    src_cid: scid,
+                    number,
+                    version: c.version,
+                };
+                let p = self.protected(header, &k);
+                self.deliver(p);
+                self.state()
+            }
+            ["echo", tp @ ..] if tp.len() == 3 => {
+                let Some(tp) = echo_params(tp) else {
+                    return BAD.into();
+                };
+                let Some(c) = self.conn.as_mut() else {
+                    return BAD.into();
+                };
+                verdict(c, tp)
+            }
+            _ => BAD.into(),
+        }
+    }
+}
